@@ -45,6 +45,15 @@ EVENT_NAMES = [
     ("leading-sep", ["-lead", "_lead", ":lead", "/lead"]),
     ("only-seps", ["-", "__", ":/"]),
     ("reserved-after-derivation", ["delete", "class"]),
+    # characters Tauri itself rejects at run time, but which a string literal can hold and the tool accepts
+    ("quote", ["it's", 'say "hi"', "'", '"']),
+    ("backslash", ["back\\slash", "trailing\\", "\\n-not-a-newline"]),
+    ("comment-terminator", ["close*/comment", "/*open", "*/"]),
+    ("whitespace-and-control", ["a b", "new\nline", "tab\tsep", "cr\rlf"]),
+    ("dot-and-punctuation", ["a.b", "a,b;c", "x=y?z"]),
+    ("template-chars", ["tmpl${x}`", "`"]),
+    ("non-ascii", ["émoji✓", "データ", "a\u2028b"]),
+    ("empty", [""]),
 ]
 MESSAGES = [
     ("plain", ["must not be empty"]),
@@ -60,7 +69,8 @@ MESSAGES = [
 
 
 def rs_str(s):
-    return '"' + s.replace("\\", "\\\\").replace('"', '\\"') + '"'
+    out = s.replace("\\", "\\\\").replace('"', '\\"').replace("\n", "\\n").replace("\r", "\\r").replace("\t", "\\t").replace("\u2028", "\\u{2028}")
+    return '"' + out + '"'
 
 
 def base_cmd(extra=""):
